@@ -402,3 +402,7 @@ package j5schema
 //@   loop 1 invariant trimPrefix + "UNSPECIFIED" == descName(evAt(evs(enumDescriptor), 0))
 //@   loop 0 invariant forall i int {values[i]} :: 0 <= i && i < len(values) ==> values[i].number == evNumber(evAt(evs(enumDescriptor), i))
 //@   loop 1 invariant len(values) == evLen(evs(enumDescriptor)) && forall i int {values[i]} :: 0 <= i && i < len(values) ==> values[i].number == evNumber(evAt(evs(enumDescriptor), i))
+
+//@ func (*ObjectSchema).Clone
+//@   requires s != nil
+//@   ensures result != nil && fresh(result) && len(result.Properties) == len(s.Properties)
